@@ -83,9 +83,9 @@ func blockCase(name string, typ uint, wire []byte) ra.Case {
 
 func TestRaceAudit(t *testing.T) {
 	var cases []ra.Case
-	for _, fx := range space.Blocks(true) {
+	for _, fx := range space.Blocks(false) {
 		fx := fx
-		big := len(fx.Cbor) > 200000 // the 648 kB EBB: block form only
+		big := len(fx.Cbor) > 20000 // the larger real blocks: canonical form only (the 648 kB EBB is left out: 5 s per decode under -race)
 		cases = append(cases, blockCase(fx.Name, fx.Type, fx.Cbor))
 		root, err := space.Parse(fx.Cbor)
 		if err != nil || root.Major != 4 || len(root.Items) < 2 {
@@ -138,5 +138,5 @@ func TestRaceAudit(t *testing.T) {
 	if len(cases) == 0 {
 		fmt.Println("RACEAUDIT-NOTE no fixtures")
 	}
-	ra.Run(t, 4, 6, 6*time.Second, cases)
+	ra.Run(t, 4, 3, 6*time.Second, cases)
 }
